@@ -107,6 +107,7 @@ type kernel struct {
 	stdout, stderr []byte
 	nout, nerr     int
 	tmpCtr         int64
+	base           int64 // plan and log indices are relative to this I/O index
 	exitCode       int
 	exited         bool
 }
@@ -263,7 +264,7 @@ func (kk *kernel) enter(op int, path string, n int) decision {
 	}
 	kk.opsCnt[op]++
 	for i := 0; i < kk.nplan; i++ {
-		if kk.plan[i].At == idx {
+		if kk.plan[i].At == idx-kk.base {
 			d.kind = kk.plan[i].Kind
 			d.arg = kk.plan[i].Arg
 			d.errno = kk.plan[i].Errno
@@ -307,7 +308,7 @@ func (kk *kernel) enter(op int, path string, n int) decision {
 			}
 			kk.log = nl
 		}
-		kk.log[kk.nlog] = IOCall{Index: idx, Task: simrt.CurTask(), Op: op, Path: path, N: n, Fault: d.kind}
+		kk.log[kk.nlog] = IOCall{Index: idx - kk.base, Task: simrt.CurTask(), Op: op, Path: path, N: n, Fault: d.kind}
 		kk.nlog++
 	}
 	if d.kind == FCrashBefore {
